@@ -119,6 +119,7 @@ def parseInit (toks : List String) (w : World) : World := Id.run do
   for t in toks do
     match kv t with
     | some ("now", v) => w := { w with now := v.toNat?.getD 0 }
+    | some ("silent", v) => w := { w with silent := v == "1" }
     | some ("budget", v) => w := { w with budget := { events := natList v } }
     | some ("breaker", v) => w := { w with breaker := parseBreakerSt v }
     | _ => pure ()
